@@ -163,13 +163,13 @@ func (sc *Scanner) scanNumber(ch int, buf *bytes.Buffer) error {
 			if !hasvalue {
 				return sc.Error(buf.String(), "illegal hexadecimal number")
 			}
-			return nil
+			return sc.endOfNumber(buf)
 		} else if sc.Peek() != '.' && isDecimal(sc.Peek()) {
 			ch = sc.Next()
 		}
 	}
 	sc.scanDecimal(ch, buf)
-	if sc.Peek() == '.' {
+	if ch != '.' && sc.Peek() == '.' {
 		sc.scanDecimal(sc.Next(), buf)
 	}
 	if ch = sc.Peek(); ch == 'e' || ch == 'E' {
@@ -183,6 +183,16 @@ func (sc *Scanner) scanNumber(ch int, buf *bytes.Buffer) error {
 		sc.scanDecimal(sc.Next(), buf)
 	}
 
+	return sc.endOfNumber(buf)
+}
+
+// endOfNumber rejects a numeral that runs straight into a letter, digit, '_' or '.'
+// (1.2.3, 0x1g, 12ab): such text is a malformed number, not a number followed by a token.
+func (sc *Scanner) endOfNumber(buf *bytes.Buffer) error {
+	if ch := sc.Peek(); isIdent(ch, 1) || ch == '.' {
+		writeChar(buf, sc.Next())
+		return sc.Error(buf.String(), "malformed number")
+	}
 	return nil
 }
 
